@@ -599,3 +599,23 @@ Fixpoint run_unrepaired (st : state) (ls : list label) : option state :=
   | [] => Some st
   | l :: r => match step_unrepaired st l with Some st' => run_unrepaired st' r | None => None end
   end.
+
+(* ---- process exit + KeyValueStore::open on the same directory.  The store has no close; a session
+   ends by process exit.  When no client operation is in flight and the memtable thread is idle
+   (no immutable memtable), `open` replays the log of the memtable into one sst that is ingested
+   into the tree (recover_one), starts an empty memtable and fresh counters s0 / m0 / t0 (what the
+   new process reports), a fresh wait list and no threads.  The guard says which exits the model
+   covers: quiescent, every sequence number in the store not above the new mem_seq_no. ---- *)
+Definition pc_idle (p : pc) : bool := match p with Idle => true | _ => false end.
+Definition quiescent (st : state) : bool :=
+  forallb (fun tp => pc_idle (snd tp)) (PositiveMap.elements (k_pcs st)) &&
+  match k_fl st with FIdle => true | _ => false end &&
+  match k_imm st with None => true | Some _ => false end &&
+  match k_mutex st with None => true | Some _ => false end.
+Definition reopen (st : state) (fid fsz s0 m0 t0 : N) : option state :=
+  let m := mt_ents (mem_at st (k_cur st)) in
+  if quiescent st && (m0 <? s0) && (k_vis st <=? m0) &&
+     forallb (fun e => ets e <=? m0) m && forallb (fun e => ets e <=? m0) (file_entries (k_tree st))
+  then Some (mkSt None s0 s0 t0 m0 0 None [empty_mt] (ver (flush (mkS m (k_tree st) 0) fid fsz)) 0 []
+                  (PositiveMap.empty pc) FIdle)
+  else None.
